@@ -741,11 +741,17 @@ struct TemplateCore {
                         ++offset;
                     }
 
-                    if (is_loop && (offset < end_offset) && (content[offset] == TagPatterns::MultiLineLastChar)) {
+                    // 'Level' is the slot of the loop's current item: one per enclosing loop, so that no two
+                    // loops that are open at the same time ever share one. It has 8 bits; a loop nested deeper
+                    // than that stays text.
+                    const SizeT level = ((loop_tag != nullptr) ? SizeT(SizeT(loop_tag->Level) + SizeT{1}) : SizeT{0});
+
+                    if (is_loop && (level <= SizeT{0xFF}) && (offset < end_offset) &&
+                        (content[offset] == TagPatterns::MultiLineLastChar)) {
                         LoopTag *tag = (storage->Insert(TagBit{})).MakeLoopTag();
                         tag->Offset  = loop_offset;
                         tag->Parent  = loop_tag;
-                        tag->Level   = SizeT8(parent_storage.Size());
+                        tag->Level   = SizeT8(level);
                         loop_tag     = tag;
 
                         parseLoopAttributes(content, offset, *tag);
